@@ -34,6 +34,10 @@ pub(crate) struct SubSocketBackend {
     socket_options: SocketOptions,
     pub(crate) socket_monitor: Mutex<Option<mpsc::Sender<SocketEvent>>>,
     subs: Mutex<HashSet<String>>,
+    // Serialises "announce the current set to a new peer and register it" with
+    // "change the set and tell every registered peer", so a peer that joins
+    // while the set changes cannot miss (or double count) the change.
+    subs_sync: futures::lock::Mutex<()>,
 }
 
 impl SubSocketBackend {
@@ -50,6 +54,7 @@ impl SubSocketBackend {
             socket_options: options,
             socket_monitor: Mutex::new(None),
             subs: Mutex::new(HashSet::new()),
+            subs_sync: futures::lock::Mutex::new(()),
         }
     }
 
@@ -85,6 +90,7 @@ impl MultiPeerBackend for SubSocketBackend {
     async fn peer_connected(self: Arc<Self>, peer_id: &PeerIdentity, io: FramedIo) {
         let (recv_queue, mut send_queue) = io.into_parts();
 
+        let _subs_sync = self.subs_sync.lock().await;
         let subs_msgs: Vec<ZmqMessage> = self
             .subs
             .lock()
@@ -138,6 +144,8 @@ impl Drop for SubSocket {
 
 impl SubSocket {
     pub async fn subscribe(&mut self, subscription: &str) -> ZmqResult<()> {
+        let backend = self.backend.clone();
+        let _subs_sync = backend.subs_sync.lock().await;
         if !self.backend.subs.lock().insert(subscription.to_string()) {
             // Already subscribed: peers have been told, telling them again would
             // make them count the subscription twice.
@@ -148,6 +156,8 @@ impl SubSocket {
     }
 
     pub async fn unsubscribe(&mut self, subscription: &str) -> ZmqResult<()> {
+        let backend = self.backend.clone();
+        let _subs_sync = backend.subs_sync.lock().await;
         if !self.backend.subs.lock().remove(subscription) {
             // Not subscribed: nothing to cancel at the peers.
             return Ok(());
